@@ -2,6 +2,7 @@
 pub mod alloc;
 pub mod common;
 pub mod props;
+pub mod puppet;
 pub mod sim;
 pub mod wire;
 
